@@ -118,7 +118,7 @@ func collectAccesses(fns []*ssa.Function, shared map[string]bool) []fieldAccess 
 				if isSyncObjectType(fld.Type()) {
 					return
 				}
-				key := sn + "." + fld.Name()
+				key := sn + "." + fname(fld)
 				fresh := isFreshBase(x.X)
 				refs := x.Referrers()
 				if refs == nil {
@@ -174,7 +174,7 @@ func collectAccesses(fns []*ssa.Function, shared map[string]bool) []fieldAccess 
 					if isSyncObjectType(st.Field(i).Type()) {
 						continue
 					}
-					out = append(out, fieldAccess{x, f, sn + "." + st.Field(i).Name(), false, false, "whole-struct copy"})
+					out = append(out, fieldAccess{x, f, sn + "." + fname(st.Field(i)), false, false, "whole-struct copy"})
 				}
 			case *ssa.Store:
 				// whole-struct store through pointer to shared struct
@@ -197,7 +197,7 @@ func collectAccesses(fns []*ssa.Function, shared map[string]bool) []fieldAccess 
 					if isSyncObjectType(st.Field(i).Type()) {
 						continue
 					}
-					out = append(out, fieldAccess{x, f, sn + "." + st.Field(i).Name(), true, false, "whole-struct store"})
+					out = append(out, fieldAccess{x, f, sn + "." + fname(st.Field(i)), true, false, "whole-struct store"})
 				}
 			}
 		})
@@ -647,7 +647,7 @@ func checkMetaEscapes(c *Ctx, r *Report, li *LockInfo) int {
 				case *ssa.FieldAddr, *ssa.DebugRef:
 				case *ssa.Store:
 					if x.Val == ssa.Value(a) {
-						if fv, _, is := fieldOf(x.Addr); is && fv.Name() == "Metadata" {
+						if fv, _, is := fieldOf(x.Addr); is && fname(fv) == "Metadata" {
 							continue
 						}
 						return false, "the allocation is also stored elsewhere (published)"
@@ -673,7 +673,7 @@ func checkMetaEscapes(c *Ctx, r *Report, li *LockInfo) int {
 			switch x := in.(type) {
 			case *ssa.Store:
 				fv, base, is := fieldOf(x.Addr)
-				if !is || fv.Name() != "Metadata" || !strings.HasPrefix(structName(base.Type()), "reservoir/cache.Entry") || !isMetaPtr(x.Val.Type()) {
+				if !is || fname(fv) != "Metadata" || !strings.HasPrefix(structName(base.Type()), "reservoir/cache.Entry") || !isMetaPtr(x.Val.Type()) {
 					return
 				}
 				n++
